@@ -103,7 +103,11 @@ func aoText(d aoDef, keyVal map[string]string) string {
 			fmt.Fprintf(&sb, "  \"%s\": { // {%s}\n    \"n\": 0\n  }%s\n", k.K, rules, sep)
 			continue
 		}
-		fmt.Fprintf(&sb, "  \"%s\": %s%s%s\n", k.K, keyVal[k.K], sep, opt)
+		val := keyVal[k.K]
+		if val == "" {
+			val = "1" // keys outside the small catalogue (AllOfWide.tla)
+		}
+		fmt.Fprintf(&sb, "  \"%s\": %s%s%s\n", k.K, val, sep, opt)
 	}
 	sb.WriteString("}")
 	return sb.String()
@@ -378,6 +382,38 @@ func runC07(c *core.Ctx) error {
 	}
 	if _, err := loadCallOrders(); err != nil {
 		return err
+	}
+	// heirs with many own keys (AllOfWide.tla): the duplicate, or the new key, at every edge position
+	{
+		var wide []aoCase
+		res, err := tlc.Run(tlc.Opts{Module: "AllOfWide", Cfg: "AllOfWide.cfg", Workers: 4, OnLine: func(l string) {
+			var cs aoCase
+			if err := json.Unmarshal([]byte(l), &cs); err != nil {
+				c.InfraError("bad wide case: %v", err)
+				return
+			}
+			wide = append(wide, cs)
+		}})
+		res.Cleanup()
+		if err != nil {
+			return err
+		}
+		if err := res.MustOK(); err != nil {
+			return err
+		}
+		c.AddTLC("AllOfWide.cfg", res)
+		if len(wide) < 50 {
+			return fmt.Errorf("AllOfWide emitted %d cases", len(wide))
+		}
+		for i := range wide {
+			wide[i].Warm = callPrefix(i, c.Seed)
+		}
+		core.ParallelFor(len(wide), func(i int) {
+			c.CountEval(2)
+			c.Report(wide[i], aoEval(wide[i]))
+			c.Nontrivial("wide" + aoDump(wide[i]))
+		})
+		c.Set("replayed_AllOfWide.cfg", len(wide))
 	}
 	for _, cfg := range cfgs {
 		var cases []aoCase
